@@ -1,4 +1,5 @@
 import TrionModel.Lemmas.AsmRetrySim
+import TrionModel.Lemmas.SimpStableDec
 /-!
 # C08 (statement level, BYTES and DIAGNOSED-OR-NOT) — the order of definition does not change what is emitted
 
@@ -284,5 +285,28 @@ example :
       .ok ⟨true, none⟩ (.bin .sub (.const 2) (.ident [114, 49])) := rfl
   rw [h2] at he
   cases he
+
+end Trion.Asm
+
+namespace Trion.Asm
+open Trion
+
+/-- the exact condition is CHECKABLE: `leftStableArgB t₁ t₂ a` runs `evaluate` over `t₁` along the path to the stop and
+once more over `t₂` on every value completed on the way; `true` discharges the hypothesis of
+`stmt_outcome_order_independent` for the concrete statement and tables -/
+theorem leftStable_checked {t₁ t₂ : Table} {a : Arg} (h : leftStableArgB t₁ t₂ a = true) : LeftStableArg t₁ t₂ a :=
+  leftStableArgB_sound h
+
+/-- the checker accepts `[((r1 + 1) + 1) + x]`, `[r1 + r2 + x]`, `[(r1 * 4) + x]` and rejects the two trees with a
+completed `-(l - r)` -/
+example :
+    leftStableArgB [] [([120], some 2)]
+      (.addr (.bin .add (.bin .add (.bin .add (.ident [114, 49]) (.const 1)) (.const 1)) (.ident [120]))) = true ∧
+    leftStableArgB [] [([120], some 0)]
+      (.addr (.bin .add (.bin .add (.ident [114, 49]) (.ident [114, 50])) (.ident [120]))) = true ∧
+    leftStableArgB [] [([120], some 0)]
+      (.addr (.bin .add (.bin .mul (.ident [114, 49]) (.const 4)) (.ident [120]))) = true ∧
+    leftStableArgB [] [([120], some 1)] exNegTree = false ∧
+    leftStableArgB [] [([120], some (-2))] exTower = false := ⟨rfl, rfl, rfl, rfl, rfl⟩
 
 end Trion.Asm
